@@ -154,7 +154,7 @@ class HeapDriver:
         if name == "Updated":
             how = args[1]
             cur = value_of(cls, o)
-            nv = 2 if cur == 1 else 1
+            nv = (1 if cur == 0 else 0) if cls == "miss" else (2 if cur == 1 else 1)
             try:
                 if how == "unknown":
                     r = o.updated(zzz_unknown=1)
